@@ -179,6 +179,11 @@ func (p *Program) intrinsicFor(fn *ssa.Function) Intrinsic {
 		}
 	}
 	if !ok {
+		if pb := p.pbIntrinsic(fn); pb != nil {
+			in, ok = pb, true
+		}
+	}
+	if !ok {
 		// bound-method / thunk wrappers fall through to their bodies
 		p.intrCache.Store(fn, nil)
 		p.ensureBody(fn)
